@@ -140,6 +140,8 @@ def run(ctx):
     with open(cases) as fh:
         for line in fh:
             c = json.loads(line)
+            if "cmd" not in c:
+                continue
             if c["cmd"] == "v1" and c["fenv"] == "v2" and c["result"] == "cfg" and not c["junk"] and c["fstate"] == "absent" and c["env"] == "-":
                 st = c
                 break
@@ -154,6 +156,27 @@ def run(ctx):
         return
     if len(r2.of_kind("fail")) < 3:
         ctx.inconclusive("binding self-test: a corrupted expected winner was NOT rejected by the harness")
+    # ... and of the history part: the second Load of a history is said to return the first one's value
+    hs = None
+    with open(hcases) as fh:
+        for line in fh:
+            h = json.loads(line)["hist"]
+            if h[0]["value"] == "v1" and h[1]["value"] == "default" and h[2]["value"] == "v2":
+                hs = h
+                break
+    if hs is None:
+        ctx.inconclusive("no usable history for the binding self-test")
+        return
+    hs[1]["value"], hs[1]["winner"] = "v1", "cmd"
+    hone = os.path.join(ctx.tmp, "c15.hselftest")
+    vf.write_ndjson(hone, [{"hist": hs, "opt": "registry.consul.service.status"}, {"hist": hs, "opt": "proxy.maxconn"}])
+    empty = os.path.join(ctx.tmp, "c15.empty")
+    open(empty, "w").close()
+    r3 = harness(ctx, empty, "C15 history self-test", env={"VERIF_C15_PROCS": 1, "VERIF_C15_HIST": hone})
+    if r3 is None:
+        return
+    if sum(1 for f in r3.of_kind("fail") if f.get("features", {}).get("clause") == "history-dependent-result") < 2:
+        ctx.inconclusive("binding self-test: a corrupted history expectation was NOT rejected by the harness")
 
 
 def replay(ctx, rp):
